@@ -1127,13 +1127,14 @@ func ImportToPath(pkgPath, pkgName string) string {
 }
 
 func (decl ImportDecl) CoqDecl() string {
-	coqPath := pathToCoqPath(decl.Path)
-	coqImportPath := strings.ReplaceAll(path.Dir(coqPath), "/", ".")
-	name := path.Base(coqPath)
+	// the logical path mirrors ImportToPath: directories become dot-separated
+	// components (also for an import path with a single component, where
+	// path.Dir would give ".")
+	logicalPath := strings.ReplaceAll(pathToCoqPath(decl.Path), "/", ".")
 	if decl.Trusted {
-		return fmt.Sprintf("From Perennial.goose_lang.trusted Require Import %s.%s.", coqImportPath, name)
+		return fmt.Sprintf("From Perennial.goose_lang.trusted Require Import %s.", logicalPath)
 	} else {
-		return fmt.Sprintf("From Goose Require %s.%s.", coqImportPath, name)
+		return fmt.Sprintf("From Goose Require %s.", logicalPath)
 	}
 }
 
